@@ -248,4 +248,13 @@ let () =
       | Some i ->
           let label = String.sub l 0 i in
           let sx = String.sub l (i + 1) (String.length l - i - 1) in
-          run_label label (func_of_sx (parse_sx sx)))
+          match String.split_on_char '.' label with
+          | ["cast"; a; b] ->
+              let wt_of = function "i32" -> WI32 | "i64" -> WI64 | "f32" -> WF32 | "f64" -> WF64 | "ptr" -> WPtr
+                                   | "ptr64" -> WPtr64 | "len" -> WLen | s -> failwith s in
+              (match cast (wt_of a) (wt_of b) with Some c -> show_cast c | None -> "PANIC")
+          | ["join"; a; b] ->
+              let wt_of = function "i32" -> WI32 | "i64" -> WI64 | "f32" -> WF32 | "f64" -> WF64 | "ptr" -> WPtr
+                                   | "ptr64" -> WPtr64 | "len" -> WLen | s -> failwith s in
+              show_wt (wjoin (wt_of a) (wt_of b))
+          | _ -> run_label label (func_of_sx (parse_sx sx)))
